@@ -12,3 +12,4 @@ import Walrus.Props.C15
 import Walrus.Props.C16
 import Walrus.Props.C17
 import Walrus.Props.C19
+import Walrus.Props.C20
